@@ -12,7 +12,7 @@
                                       multipartIterator.Next / multipartWalker.nextFile / fileInfo, transcribed;
                                       the consumer either walks everything ("full") or never descends
                                       into directories ("shallow": exercises the skip-nested-parts branch)
-     * RoundTrip, ShallowWalk, EscapedSafe, WireShape -- the property.
+     * RoundTrip, ShallowWalk, EscapedSafe -- the property.
 
    Trees are pre-order lists of nodes with their depth (a canonical form of ordered trees):
      node = [d, name, type, body, mode, mt]
@@ -114,15 +114,18 @@ SiblingNames(t, d) ==
       p  == IF ps = {} THEN 0 ELSE CHOOSE j \in ps : \A k \in ps : k <= j
   IN {t[j].name : j \in {k \in (p + 1)..Len(t) : t[k].d = d}}
 
+\* nodes that may be appended to the pre-order list t
 NodeChoices(t) ==
-  {[d |-> d, name |-> n, type |-> ty, body |-> b, mode |-> m, mt |-> mt] :
-      d \in DepthsAfter(t), n \in Names, ty \in Types, b \in Bodies, m \in Modes \cup {LinkMode}, mt \in Mtimes}
-
-GoodNode(t, x) == /\ x.name \notin SiblingNames(t, x.d)
-                  /\ x.type = "dir"  => x.body = ""
-                  /\ x.type = "link" => x.body # ""
-                  /\ x.type = "link" => x.mode = LinkMode
-                  /\ x.type # "link" => x.mode # LinkMode
+  LET free(d) == Names \ SiblingNames(t, d)
+  IN UNION {
+      {[d |-> d, name |-> n, type |-> "dir", body |-> "", mode |-> m, mt |-> mt] :
+          n \in free(d), m \in Modes, mt \in Mtimes}
+      \cup {[d |-> d, name |-> n, type |-> "file", body |-> b, mode |-> m, mt |-> mt] :
+          n \in free(d), b \in Bodies, m \in Modes, mt \in Mtimes}
+      \cup {[d |-> d, name |-> n, type |-> "link", body |-> b, mode |-> LinkMode, mt |-> mt] :
+          n \in free(d), b \in Bodies \ {""}, mt \in Mtimes}
+    : d \in DepthsAfter(t)}
+GoodNode(t, x) == x.type \in Types
 
 -----------------------------------------------------------------------------
 (* ---------- MultiFileReader: one part per node, pre-order ---------- *)
@@ -156,53 +159,56 @@ MakeRelative(child, parent) == TrimPrefix(child, DirName(parent))
 \* fileInfo(name, part): mode and mtime from the query part of the form name
 HasQuery(p) == p.form /\ (p.params.mode # <<>> \/ p.params.mtime # <<>> \/ p.params.nsecs # <<>>)
 InfoMode(p) == IF HasQuery(p) /\ p.params.mode # <<>> THEN p.params.mode[1] ELSE 0
-InfoTime(p) ==
+InfoTime(p, devs) ==
   LET ns == IF p.params.nsecs # <<>> THEN p.params.nsecs[1] ELSE 0
   IN IF ~HasQuery(p) THEN NoTime
      ELSE IF p.params.mtime # <<>> THEN [set |-> TRUE, s |-> p.params.mtime[1], ns |-> ns]
-     ELSE IF "Dev_C39_MtimeEpoch" \in Devs THEN [set |-> TRUE, s |-> 0, ns |-> ns]   \* time.Unix(0, nsecs)
+     ELSE IF "Dev_C39_MtimeEpoch" \in devs THEN [set |-> TRUE, s |-> 0, ns |-> ns]   \* time.Unix(0, nsecs)
      ELSE NoTime
 
 \* multipartWalker.nextFile: the node made from one part (rel = name relative to the directory)
-NodeOf(p, rel, depth) ==
+NodeOf(p, rel, depth, devs) ==
   LET ty == CASE p.ctype \in {"application/x-directory", "multipart/form-data"} -> "dir"
               [] p.ctype = "application/symlink" -> "link"
               [] OTHER -> "file"
   IN [d |-> depth, name |-> rel, type |-> ty, body |-> IF ty = "dir" THEN "" ELSE p.body,
       mode |-> IF ty = "link" THEN LinkMode ELSE InfoMode(p),      \* Symlink.Mode() is constant
-      mt |-> InfoTime(p)]
+      mt |-> InfoTime(p, devs)]
 ImplicitDir(name, depth) == [d |-> depth, name |-> name, type |-> "dir", body |-> "", mode |-> 0, mt |-> NoTime]
 
-(* Walk(parts, pos, dpath, depth, cur, descend): the entries that a consumer obtains from the iterator of
-   the directory whose path is dpath (multipartIterator.Next in a loop), starting at part number pos with
-   it.curName = cur; descend = the consumer iterates every directory it is handed before asking for the
-   next sibling.  Result: nodes in visiting order and the walker position afterwards.                 *)
-RECURSIVE Walk(_, _, _, _, _, _)
-Walk(parts, pos, dpath, depth, cur, descend) ==
+(* Walk(parts, nm, pos, dpath, depth, cur, descend, devs): the entries that a consumer obtains from the iterator
+   of the directory whose path is dpath (multipartIterator.Next in a loop), starting at part number pos with
+   it.curName = cur; nm[i] = fileName(parts[i]); descend = the consumer iterates every directory it is handed
+   before asking for the next sibling.  Result: nodes in visiting order and the walker position afterwards. *)
+RECURSIVE Walk(_, _, _, _, _, _, _, _)
+Walk(parts, nm, pos, dpath, depth, cur, descend, devs) ==
   IF pos > Len(parts) THEN [out |-> <<>>, pos |-> pos]                         \* getPart: io.EOF
   ELSE
     LET part == parts[pos]
-        name == FileName(part)
+        name == nm[pos]
     IN IF ~IsChild(name, dpath) THEN [out |-> <<>>, pos |-> pos]               \* belongs to another directory
        ELSE IF cur # <<>> /\ IsChild(name, JoinPath(dpath, cur))
-       THEN Walk(parts, pos + 1, dpath, depth, cur, descend)                  \* already entered: consumePart
+       THEN Walk(parts, nm, pos + 1, dpath, depth, cur, descend, devs)            \* already entered: consumePart
        ELSE
          LET rel == MakeRelative(name, dpath)
              c   == Cut(rel)
          IN IF c.found
             THEN \* implicit directory; the part is NOT consumed
-              LET sub  == IF descend THEN Walk(parts, pos, JoinPath(dpath, c.before), depth + 1, <<>>, descend)
+              LET sub  == IF descend THEN Walk(parts, nm, pos, JoinPath(dpath, c.before), depth + 1, <<>>, descend, devs)
                           ELSE [out |-> <<>>, pos |-> pos]
-                  rest == Walk(parts, sub.pos, dpath, depth, c.before, descend)
+                  rest == Walk(parts, nm, sub.pos, dpath, depth, c.before, descend, devs)
               IN [out |-> <<ImplicitDir(c.before, depth)>> \o sub.out \o rest.out, pos |-> rest.pos]
             ELSE \* nextFile consumes the part
-              LET nd   == NodeOf(part, rel, depth)
-                  sub  == IF nd.type = "dir" /\ descend THEN Walk(parts, pos + 1, name, depth + 1, <<>>, descend)
+              LET nd   == NodeOf(part, rel, depth, devs)
+                  sub  == IF nd.type = "dir" /\ descend THEN Walk(parts, nm, pos + 1, name, depth + 1, <<>>, descend, devs)
                           ELSE [out |-> <<>>, pos |-> pos + 1]
-                  rest == Walk(parts, sub.pos, dpath, depth, rel, descend)
+                  rest == Walk(parts, nm, sub.pos, dpath, depth, rel, descend, devs)
               IN [out |-> <<nd>> \o sub.out \o rest.out, pos |-> rest.pos]
 
-Parse(parts, descend) == Walk(parts, 1, <<"/">>, 1, <<>>, descend).out
+ParseWith(parts, descend, devs) ==
+  Walk(parts, [i \in 1..Len(parts) |-> FileName(parts[i])], 1, <<"/">>, 1, <<>>, descend, devs)
+ParseFull(parts, descend) == ParseWith(parts, descend, Devs)
+Parse(parts, descend) == ParseFull(parts, descend).out
 
 -----------------------------------------------------------------------------
 (* ---------- the property ---------- *)
@@ -211,19 +217,20 @@ Erase(x) == [x EXCEPT !.mode = IF x.type = "link" THEN LinkMode ELSE 0, !.mt = N
 Expected(t, form) == IF form THEN t ELSE [i \in 1..Len(t) |-> Erase(t[i])]
 SelectTop(t) == SelectSeq(t, LAMBDA x : x.d = 1)
 
-RoundTrip   == \A form \in BOOLEAN : Parse(Serialize(tree, form), TRUE) = Expected(tree, form)
-ShallowWalk == \A form \in BOOLEAN : Parse(Serialize(tree, form), FALSE) = SelectTop(Expected(tree, form))
-\* the escaped file name and the form name survive the quoted-string layer of the MIME header untouched
+\* full walk: the same tree comes back and every part has been consumed
+RoundTrip   == \A form \in BOOLEAN :
+                  ParseFull(Serialize(tree, form), TRUE) = [out |-> Expected(tree, form), pos |-> Len(tree) + 1]
+\* a consumer that never enters a directory sees exactly the top-level entries (nested parts are skipped)
+ShallowWalk == \A form \in BOOLEAN :
+                  ParseFull(Serialize(tree, form), FALSE) = [out |-> SelectTop(Expected(tree, form)), pos |-> Len(tree) + 1]
+\* the escaped file name survives the quoted-string layer of the MIME header untouched (no '"', no '\'),
+\* and unescaping is the inverse of escaping on every path
 SafeChars == {"a", "b", "q", "0", "1", "2", "3", "4", "5", "6", "7", "8", "9", "A", "B", "C", "D", "E", "F",
               "%", "+", "-", "_", ".", "~"}
-EscapedSafe == \A i \in 1..Len(tree) : \A k \in 1..Len(PartOf(tree, i, TRUE).fname) :
-                   PartOf(tree, i, TRUE).fname[k] \in SafeChars
-\* unescaping is the inverse of escaping on every path
-EscapeInverse == \A i \in 1..Len(tree) :
-                   LET p == JoinSlash(PathComps(tree, i)) IN Unescape(Escape(p)) = [ok |-> TRUE, val |-> p]
-\* every walk consumes all parts
-ConsumesAll == \A form \in BOOLEAN, ds \in BOOLEAN :
-                   Walk(Serialize(tree, form), 1, <<"/">>, 1, <<>>, ds).pos = Len(tree) + 1
+EscapedSafe == \A i \in 1..Len(tree) :
+                   LET p == JoinSlash(PathComps(tree, i))
+                       e == Escape(p)
+                   IN (\A k \in 1..Len(e) : e[k] \in SafeChars) /\ Unescape(e) = [ok |-> TRUE, val |-> p]
 
 TypeOK == /\ Len(tree) <= MaxNodes
           /\ \A i \in 1..Len(tree) : tree[i].d \in 1..MaxDepth
